@@ -202,12 +202,6 @@ func observeProxy(cg *core.ConfigGenTest, w *world, p proxyT) *proxyObs {
 		}
 	}
 
-	if p.Type == "router" {
-		// no Gateway resources in the universe: a router has no outbound listeners or routes of its own
-		o.Digest = hex.EncodeToString(h.Sum(nil))
-		return o
-	}
-
 	// LDS
 	ls := cg.Listeners(proxy)
 	sort.SliceStable(ls, func(i, j int) bool { return ls[i].Name < ls[j].Name })
@@ -256,9 +250,11 @@ func observeProxy(cg *core.ConfigGenTest, w *world, p proxyT) *proxyObs {
 		o.Listeners = append(o.Listeners, lo)
 	}
 
-	// RDS: the routes the listeners name, plus every HTTP port number of the universe
-	for _, n := range rdsProbeNames(w) {
-		rdsNames[n] = true
+	// RDS: the routes the listeners name, plus (sidecars) every HTTP port number of the universe
+	if p.Type == "sidecar" {
+		for _, n := range rdsProbeNames(w) {
+			rdsNames[n] = true
+		}
 	}
 	names := make([]string, 0, len(rdsNames))
 	for n := range rdsNames {
